@@ -248,6 +248,62 @@ def run_c16(facts, rep):
         else:
             rep.violation(R + "(pure)", rf, "refill_buffer reads {%s}: the block no longer depends on exactly (seed, counter)" %
                           ", ".join(sorted(reads)), facts.loc(rf))
+    # ---- chunking independence of byte reads
+    fb = [p for p in facts.items if p.endswith("::fill_bytes") and "BlakeRNG" in facts.items[p].get("impl_self", "")]
+    rep.rule(R + "(chunk)", "fill_bytes consumes the block buffer contiguously: it refills only when the cursor has reached the "
+             "end of the buffer (no unread bytes are discarded), copies from the cursor and advances it by the copied length")
+    if rep.anchor(R + "(chunk)", "BlakeRNG::fill_bytes", bool(fb)):
+        p = fb[0]
+        rep.fn(p)
+        body = facts.hir[p]
+        tree = Tree(body)
+        refills = [x for x in walk(body) if x.get("k") == "MCall" and x.get("name") == "refill_buffer"]
+        bad = []
+        unknown = []
+
+        def is_cursor(e):
+            e = strip(e)
+            return e.get("k") == "Field" and e.get("name") == "buffer_current"
+
+        def is_size(e):
+            e = strip(e)
+            return (e.get("k") == "Path" and "BUFFER_SIZE" in e.get("def", "")) or (e.get("k") == "MCall" and e.get("name") == "len")
+        for r in refills:
+            g = tree.enclosing(r, ("If",))
+            verdict = "unknown"
+            if g is not None:
+                c = strip(g["c"])
+                if c.get("k") == "Bin":
+                    a, b, op = c["a"], c["b"], c.get("op")
+                    if (is_cursor(a) and is_size(b) and op in (">=", "==")) or (is_size(a) and is_cursor(b) and op in ("<=", "==")):
+                        verdict = "good"
+                    else:
+                        # cursor + something compared with the size: refills while unread bytes remain
+                        for side, other, ops in ((a, b, (">", ">=")), (b, a, ("<", "<="))):
+                            ss = strip(side)
+                            if ss.get("k") == "Bin" and ss.get("op") == "+" and (is_cursor(ss["a"]) or is_cursor(ss["b"])) \
+                                    and is_size(other) and op in ops:
+                                verdict = "bad"
+            if verdict == "bad":
+                bad.append(r)
+            elif verdict == "unknown":
+                unknown.append(r)
+        adv = [x for x in walk(body) if x.get("k") == "AssignOp" and x.get("op", "").startswith("+") and
+               strip(x["lhs"]).get("k") == "Field" and strip(x["lhs"]).get("name") == "buffer_current"]
+        if not refills:
+            rep.violation(R + "(chunk)", "fill_bytes/refill", "fill_bytes never refills the buffer", facts.loc(p))
+        elif bad:
+            rep.violation(R + "(chunk)", "fill_bytes/refill", "fill_bytes refills (line %s) under a condition other than `cursor >= "
+                          "BUFFER_SIZE`: unread bytes of the current block are discarded, so the byte stream depends on how "
+                          "reads are chunked across a refill" % bad[0].get("l"), facts.loc(p, bad[0]))
+        elif unknown:
+            rep.unresolved(R + "(chunk)", "fill_bytes/refill", "refill condition at line %s is not one of the modelled forms" %
+                           unknown[0].get("l"), facts.loc(p, unknown[0]))
+        elif not adv:
+            rep.violation(R + "(chunk)", "fill_bytes/advance", "fill_bytes does not advance the cursor by the copied length", facts.loc(p))
+        else:
+            rep.ok(R + "(chunk)", "fill_bytes", "refill only at the end of the block; cursor advances by the copied length",
+                   facts.loc(p), sample={"refill_sites": len(refills)})
     # ---- rns consistency
     for nm in ("ternary", "centered_binomial", "uniform"):
         p = "util::rlwe::sample::" + nm
